@@ -1,10 +1,66 @@
 """C10 — kernels never index out of bounds and initialise every output slot exactly once. Engine K."""
 import kani_engine
 
-RULE = "tbd"
-MANIFEST = {"engine": "K", "technique": "tbd", "design_ref": "DESIGN.md 3/C10", "level_text": "tbd", "level_note": "tbd"}
+RULE = ("one Kani harness per (entry point or kernel, input view, group of concrete lengths N). Output goes to the "
+        "instrumented container `Logged` whose uninit types keep a per-slot write log; after each call the harness asserts "
+        "'output index in bounds', 'slot written once', 'every output slot written before assume_init' and the output "
+        "length. Inputs are Vec / [T; N] / Array1 (Kani's pointer checks see every get_unchecked / uget) and the "
+        "bounds-checked thin view DefView (an index >= len handed to an unchecked accessor panics). Window values are "
+        "1..=N+3 (symbolic, or enumerated by a concrete loop on the fast paths), window 0 / empty input / a shorter second "
+        "series have their own harnesses; min_periods, null masks, values, pct/rev flags are kani::any(). A harness is "
+        "non-trivial when its kani::cover! witnesses are SATISFIED; #[kani::should_panic] harnesses witness the regions "
+        "where the tree panics cleanly (acceptable for this property) with plain Vec outputs")
+
+MANIFEST = {
+    "engine": "K",
+    "technique": "bounded model checking (Kani/CBMC) of all rolling drivers with an arbitrary callback and of the "
+                 "self-indexing kernels, writing into a write-logging output container and reading from pointer-checked / "
+                 "bounds-checked input views",
+    "design_ref": "DESIGN.md 3/C10",
+    "level_text": "CBMC decides, for every series content and every window 1..=N+3 at each concrete length N, that the six "
+                  "rolling drivers (returned and caller-buffer path; Vec and Array1 fast paths, default bodies) write "
+                  "every output slot exactly once and in bounds and read only valid input memory; that ts_vmin/vmax/"
+                  "vargmin/vargmax/ts_vrank, ts_vminmaxnorm, ts_vregx_resid_mean, vrank, varg_partition, vpartition and "
+                  "vquantile do the same for every null mask, min_periods and flag; and which degenerate calls (window 0, "
+                  "empty input, shorter second series) panic cleanly and which expose unwritten or out-of-bounds memory",
+    "level_note": "trusted: Kani/CBMC/CaDiCaL, stub std::fmt::format; Kani has no uninitialised-read check, hence the "
+                  "write log (padding / validity of MaybeUninit transmutes trusted); bound: N <= 3 quick (Array1 "
+                  "drivers N = 2), N <= 4 thorough; ts_vregx_resid_std/skew only on the default-body view in the thorough "
+                  "tier (float sqrt/powi do not constant-fold; fast path > 600 s) — they share their index expressions "
+                  "with ts_vregx_resid_mean; partition parameters (k, sort, rev) are concrete per call; "
+                  "Polars backend outside the claim",
+}
 
 
 def check(v, tier, opts):
+    v.functions.update([
+        "Vec1View::rolling_apply / rolling_apply_to", "rolling_apply_idx / _to", "rolling2_apply / _to",
+        "rolling2_apply_idx / _to", "rolling_custom / rolling_custom_to", "rolling2_custom",
+        "fast-path overrides of Vec<T>, [T; N], Array1<T>; default bodies through util::DefView",
+        "Vec1::uninit / uninit_ref_mut, UninitVec::uset / assume_init, UninitRefMut::uset / write_trust_iter (via Logged)",
+        "RollingValidCmp::ts_vmin / ts_vmax / ts_vargmin / ts_vargmax / ts_vrank", "RollingValidNorm::ts_vminmaxnorm",
+        "RollingValidRegBinary::ts_vregx_resid_mean (quick) / _std / _skew (thorough, DefView only)",
+        "MapValidVec::vrank / vpartition / varg_partition", "VecAggValidExt::vquantile",
+    ])
+    v.bounds.append("drivers: N in {0,1,2,3} on Vec, N = 2 on Array1 (slice forms thorough), N = 3 on DefView; window "
+                    "1..=N+3; callback returns kani::any::<u8>() and reads every element of a slice window; i32 contents "
+                    "unconstrained; thorough adds N = 4 and the remaining lengths")
+    v.bounds.append("window 0: N = 2 (every fast-path override of Vec and Array1, every *_to body; kernels on Vec), N = 0 "
+                    "(fast paths); second series of length N-1 at N = 2; thorough adds N in {1,3}")
+    v.bounds.append("kernels: N in {1,2,3} on [T; N] (same impl_vec1! fast path as Vec, no heap object), N = 3 on DefView, "
+                    "N = 0 in c10_empty_*; Vec input and N = 4 in the thorough tier; Option<i32> data: unconstrained for the "
+                    "cmp kernels, -3..=3 for minmaxnorm / vrank / partition / quantile (ties; no i32 overflow in v - min); "
+                    "min_periods None or 0..=N+3; regression residuals: fixed f64 values with a symbolic (DefView) or two "
+                    "concrete (fast path) NaN masks — indices never depend on values there; partition: concrete "
+                    "(k, sort, rev) from {(1,F,F),(1,T,T),(3,T,F),(4,F,F)} quick; quantile q in {0,.25,.5,.75,1,1.5} x 4 methods")
+    v.outside.append("Polars backend; VecDeque / ArrayView inputs of the drivers (their protocol is C02, same default or "
+                     "fast-path text); ts_vregx_resid_std / _skew on the fast path (CBMC does not finish: sqrt / powi); "
+                     "kernels that never index the input themselves (features, binary, most of reg) are covered through the "
+                     "drivers with an arbitrary callback; reads of uninitialised memory as such (Kani cannot model them: "
+                     "write log instead); lengths above the bound")
+    v.assumptions.append("clean panics are acceptable (property text): default driver bodies with window 0 "
+                         "(assert!(window > 0) / `window - 1` underflow), the cmp kernels on an empty DefView, ts_vrank on "
+                         "empty input or window 0 (`window - 1` underflow; recorded under C05) — witnessed by should_panic "
+                         "harnesses and excluded from the other harnesses by kani::assume")
     kani_engine.decide(v, "C10", tier, opts)
     return v.finish(RULE)
